@@ -1,10 +1,11 @@
 """C01 — dense direct solvers: structure of partial pivoting, elimination and substitution."""
 from .pdb import strip, walk, loc, ancestors
-from .terms import Ctx, num, show, lin_add, lin_sub
+from .terms import Ctx, num, show, lin_add, lin_sub, base_ty
 from .common import value_before, index_sequence
 from .common import (P, F, SIZE, effects, callee_path, call_args, rule_index_kinds, find_argmax, ordered_cmps_on_elements,
                      reachable_fns, elem_ref, loop_var_ranges, is_abs_term, in_macro, same_dim, _resolve)
 from .guards import facts
+from .common import is_zero_term
 from .guards import for_range as raw_for_range
 from .common import for_range_total as for_range
 
@@ -154,11 +155,70 @@ def check_gauss(rep, pdb, key):
                 ok, gw["body"], det, where=loc(gw["body"]))
 
 
+def _shape_term(ctx, t):
+    """rows / cols / lengths of the arguments, integer parameters, literals and arithmetic over them"""
+    if not isinstance(t, tuple) or not t:
+        return False
+    k = t[0]
+    if k == "num":
+        return True
+    if k == "field":
+        return t[2] in ("rows", "cols") and t[1][0] == "param"
+    if k == "len":
+        return True
+    if k == "param":
+        b = [b_ for b_ in ctx.binds.values() if b_.kind == "param" and b_.idx == t[1]]
+        return bool(b) and base_ty(b[0].ty) in ("usize", "isize", "u32", "i32", "u64", "i64")
+    if k in ("op", "lin"):
+        return all(_shape_term(ctx, x) for x in t[1:] if isinstance(x, tuple))
+    if k == "call" and str(t[1]).rsplit("::", 1)[-1] in ("rows", "cols", "size", "len"):
+        return True
+    return False
+
+
+def rule_rejects_only_shapes(rep, pdb, fns):
+    """The solvers give an answer for EVERY nonsingular system: a panic of their own may depend on the shapes of the arguments only."""
+    rule = ("every panic raised by the direct solvers and their helpers is guarded by comparisons of shapes (rows, cols, lengths) only: a guard that looks at element "
+            "values - a determinant, a norm, a condition estimate, a pivot threshold - rejects systems the property quantifies over (e.g. a nonsingular system whose "
+            "determinant underflows)")
+    n = 0
+    for f in fns:
+        ctx = Ctx.for_fn(pdb, f)
+        k_ = 0
+        for node in walk(f["body"]):
+            # a panic site: the outermost expression of type `!` that is not a return / break / continue (panic!, assert!, assert_eq!, unreachable!, expect ...)
+            if node.get("ty") != "!" or node.get("k") in ("Ret", "Break", "Continue", "Loop") or any(a.get("ty") == "!" for a in ancestors(node)):
+                continue
+            if any(x.get("k") in ("Ret", "Break", "Continue") for x in walk(node)):
+                continue
+            fs = facts(ctx, node)
+            def atom_ok(a):
+                if a[0] in ("cmp", "ncmp"):
+                    if a[1] in ("==", "!=") and (is_zero_term(a[2]) or is_zero_term(a[3])):
+                        v = a[3] if is_zero_term(a[2]) else a[2]
+                        while v[0] == "call" and str(v[1]).rsplit("::", 1)[-1] == "abs" and len(v) == 3:
+                            v = v[2]
+                        if v[0] == "idx":
+                            return True     # an exactly-zero matrix element (a zero pivot after the search): the system is singular
+                    return _shape_term(ctx, a[2]) and _shape_term(ctx, a[3])
+                if a[0] == "or":
+                    return all(atom_ok(x) for alt in a[1] for x in alt)
+                return False
+            bad = [a for a in fs if not atom_ok(a)]
+            k_ += 1
+            n += 1
+            rep.add("rejects-only-shapes/%s#%d" % (f.get("name"), k_), rule, not bad, node,
+                    "guards: %d, about values: %s" % (len(fs), [show(a[2], ctx) + " " + str(a[1]) + " " + show(a[3], ctx) if a[0] in ("cmp", "ncmp") else str(a[0]) for a in bad][:3]))
+    rep.floor("rejects-only-shapes/", 2)
+
+
 def run(rep, pdb, tier):
     solve = ("max_abs_in_column", "backsolve", "partial_pivot", "gauss_with_pivot", "solve_basic", "lu_decomp_in_place", "solve_lu", "determinant", "inverse")
     from .common import self_adt
     solve_fns = [f for f in pdb.local_fns() if f["file"] == "src/matrix/solve.rs" or (self_adt(f) == "matrix::Matrix" and f.get("name") in solve)]
     n_sites = rule_index_kinds(rep, pdb, solve_fns)
+    rule_rejects_only_shapes(rep, pdb, [f for f in solve_fns if f.get("name") in ("max_abs_in_column", "backsolve", "partial_pivot", "gauss_with_pivot", "solve_basic",
+                                                                              "lu_decomp_in_place", "solve_lu")])
     n_cmp = rule_magnitude(rep, pdb, ["%s::solve_basic" % M, "%s::solve_lu" % M])
     # ---- Gaussian elimination
     mac = pdb.fn("%s::max_abs_in_column" % M)
